@@ -47,7 +47,7 @@ structure RecvMode where
 deriving Repr, DecidableEq
 
 inductive Call where
-  | msgSend (d : Bytes)
+  | msgSend (d : Bytes) (park : Bool := false)   -- park: the encoding's Marshal parks (holding the write lock)
   | rawWrite (k : Byte) (d : Bytes)
   | rawFlush
   | msgRecv (m : RecvMode)
@@ -84,7 +84,8 @@ inductive PC where
   | once (c : Call)                           -- sync.Once `flush`
   -- plain writer calls
   | lockW (c : Call) (sec : WSec)             -- blocking acquire of s.write
-  | heldW (c : Call) (sec : WSec)             -- store write.held := 1; newFrameLocked + split
+  | heldW (c : Call) (sec : WSec)             -- store write.held := 1
+  | marshal (c : Call) (sec : WSec)           -- MsgSend: Marshal (may park), then newFrameLocked + split
   -- calls that take s.mu
   | lockMu (c : Call)                         -- blocking acquire of s.mu
   | chkTerm (c : Call)                        -- under mu: the "already terminated / finished" test
@@ -166,6 +167,13 @@ def bufBytes (fs : List Frame) : Nat := (fs.map (fun f => (appendFrame f).length
 /-- `sig.Set(e)`: first one wins -/
 def setOnce (o : Option Err) (e : Err) : Option Err := match o with | none => some e | some x => some x
 
+/-- the critical section of `packetBuffer.Close(e)` (after the wait for `held`):
+    `if pb.err == nil { data = nil; set = false; err = e }` -/
+def pbufClose (sh : Sh) (e : Err) : Sh :=
+  { sh with pdata := if sh.perr.isNone then [] else sh.pdata,
+            pset := if sh.perr.isNone then false else sh.pset,
+            perr := setOnce sh.perr e }
+
 /-- checkCancelError -/
 def cancelWrap (sh : Sh) (r : Ret) : Ret := match sh.cancel with | some e => .err e | none => r
 
@@ -226,15 +234,12 @@ def afterTerm (c : Call) : PC :=
   | .handle .. => .hRet (handleRet c)
   | _ => .unlockMu c
 
-/-- One atomic step of thread `t`; `none` when the thread is blocked or finished. -/
-def step (s : St) (t : Tid) : Option St :=
-  let sh := s.sh
-  let o := s.opts
-  match s.pc t with
+/-- The step of a thread whose program counter is the third argument. -/
+def stepPC (s : St) (t : Tid) : PC → Option St
   | .done _ => none
   | .start c =>
     match c with
-    | .msgSend _ => some (s.setPc t (.once c))
+    | .msgSend _ _ => some (s.setPc t (.once c))
     | .rawWrite _ _ => some (s.setPc t (.lockW c { frames := [], checks := true, flush := .none, recvAfter := none }))
     | .rawFlush => some (s.setPc t (.lockW c (flushSec none)))
     | .msgRecv _ => some (s.setPc t (.once c))
@@ -244,75 +249,80 @@ def step (s : St) (t : Tid) : Option St :=
     | _ => some (s.setPc t (.lockMu c))
   -- sync.Once
   | .once c =>
-    match sh.once, c with
+    match s.sh.once, c with
     | some (some _), _ => none                                    -- someone is running the once: wait
-    | some none, .msgSend _ =>
-      some (s.setPc t (.lockW c { frames := [], checks := true, flush := if o.manualFlush then .none else .checked, recvAfter := none }))
-    | none, .msgSend _ =>                                         -- flush.Do(func(){})
-      some (s.upd t { sh with once := some none }
-        (.lockW c { frames := [], checks := true, flush := if o.manualFlush then .none else .checked, recvAfter := none }))
+    | some none, .msgSend _ _ =>
+      some (s.setPc t (.lockW c { frames := [], checks := true, flush := if s.opts.manualFlush then .none else .checked, recvAfter := none }))
+    | none, .msgSend _ _ =>                                       -- flush.Do(func(){})
+      some (s.upd t { s.sh with once := some none }
+        (.lockW c { frames := [], checks := true, flush := if s.opts.manualFlush then .none else .checked, recvAfter := none }))
     | some none, .msgRecv park => some (s.setPc t (.cfEnd (.recv park)))
     | none, .msgRecv park =>                                      -- flush.Do(func(){ err = s.RawFlush() })
-      some (s.upd t { sh with once := some (some t) } (.lockW c (flushSec (some park))))
+      some (s.upd t { s.sh with once := some (some t) } (.lockW c (flushSec (some park))))
     | _, _ => none
   -- write lock
-  | .lockW c sec => if sh.w.isSome then none else some (s.upd t { sh with w := some t } (.heldW c sec))
+  | .lockW c sec => if s.sh.w.isSome then none else some (s.upd t { s.sh with w := some t } (.heldW c sec))
   | .heldW c sec =>
     match c with
-    | .msgSend d =>
-      let mid' := sh.mid + 1
-      some (s.upd t { sh with wHeld := true, mid := mid' } (.frame { sec with frames := framesOf o mid' kindMessage d }))
+    | .msgSend _ _ => some (s.upd t { s.sh with wHeld := true } (.marshal c sec))
     | .rawWrite k d =>
-      let mid' := sh.mid + 1
-      some (s.upd t { sh with wHeld := true, mid := mid' } (.frame { sec with frames := framesOf o mid' k d }))
-    | _ => some (s.upd t { sh with wHeld := true } (.flush sec))
+      let mid' := s.sh.mid + 1
+      some (s.upd t { s.sh with wHeld := true, mid := mid' } (.frame { sec with frames := framesOf s.opts mid' k d }))
+    | _ => some (s.upd t { s.sh with wHeld := true } (.flush sec))
+  | .marshal c sec =>
+    match c with
+    | .msgSend d park =>
+      if park then none else
+      let mid' := s.sh.mid + 1
+      some (s.upd t { s.sh with mid := mid' } (.frame { sec with frames := framesOf s.opts mid' kindMessage d }))
+    | _ => none
   -- s.mu
-  | .lockMu c => if sh.mu.isSome then none else some (s.upd t { sh with mu := some t } (.chkTerm c))
+  | .lockMu c => if s.sh.mu.isSome then none else some (s.upd t { s.sh with mu := some t } (.chkTerm c))
   | .chkTerm c =>
     match c with
-    | .cancel _ => if sh.fin then some (s.setPc t (.hRet (.bool true))) else some (s.setPc t (.pre c))
+    | .cancel _ => if s.sh.fin then some (s.setPc t (.hRet (.bool true))) else some (s.setPc t (.pre c))
     | .handle .. => some (s.setPc t (.pre c))
     | .closeSend =>
-      if sh.send.isSome || sh.term.isSome then some (s.upd t { sh with mu := none } (.done .nil))
+      if s.sh.send.isSome || s.sh.term.isSome then some (s.upd t { s.sh with mu := none } (.done .nil))
       else some (s.setPc t (.lockWmu c))
     | .sendCancel _ =>
-      if sh.term.isSome then
-        some (s.upd t { sh with mu := none } (.ret { frames := [], checks := false, flush := .none, recvAfter := none } .nil))
+      if s.sh.term.isSome then
+        some (s.upd t { s.sh with mu := none } (.ret { frames := [], checks := false, flush := .none, recvAfter := none } .nil))
       else some (s.setPc t (.pre c))
     | _ =>
-      if sh.term.isSome then some (s.upd t { sh with mu := none } (.done .nil))
+      if s.sh.term.isSome then some (s.upd t { s.sh with mu := none } (.done .nil))
       else some (s.setPc t (.lockWmu c))
-  | .lockWmu c => if sh.w.isSome then none else some (s.upd t { sh with w := some t } (.heldWmu c))
-  | .heldWmu c => some (s.upd t { sh with wHeld := true } (.pre c))
+  | .lockWmu c => if s.sh.w.isSome then none else some (s.upd t { s.sh with w := some t } (.heldWmu c))
+  | .heldWmu c => some (s.upd t { s.sh with wHeld := true } (.pre c))
   | .tryMu tag =>
-    if sh.mu.isSome then some (s.setPc t (.done .busy)) else some (s.upd t { sh with mu := some t } (.tryW tag))
+    if s.sh.mu.isSome then some (s.setPc t (.done .busy)) else some (s.upd t { s.sh with mu := some t } (.tryW tag))
   | .tryW tag =>
-    if sh.w.isSome then some (s.upd t { sh with mu := none } (.done .busy))
-    else some (s.upd t { sh with w := some t, wHeld := true } (.chkTerm (.sendCancel tag)))
+    if s.sh.w.isSome then some (s.upd t { s.sh with mu := none } (.done .busy))
+    else some (s.upd t { s.sh with w := some t, wHeld := true } (.chkTerm (.sendCancel tag)))
   | .pre c =>
     match c with
     | .close => some (s.setPc t (.tSet .termClosed c))
-    | .sendError _ => some (s.upd t { sh with send := setOnce sh.send .eof } (.tSet .termError c))
-    | .sendCancel tag => some (s.upd t { sh with send := setOnce sh.send .eof } (.tSet (.ctx tag) c))
+    | .sendError _ => some (s.upd t { s.sh with send := setOnce s.sh.send .eof } (.tSet .termError c))
+    | .sendCancel tag => some (s.upd t { s.sh with send := setOnce s.sh.send .eof } (.tSet (.ctx tag) c))
     | .cancel tag =>
-      some (s.upd t { sh with cancel := setOnce sh.cancel (.ctx tag), send := setOnce sh.send .eof } (.tSet (.ctx tag) c))
+      some (s.upd t { s.sh with cancel := setOnce s.sh.cancel (.ctx tag), send := setOnce s.sh.send .eof } (.tSet (.ctx tag) c))
     | .closeSend =>
-      let send' := setOnce sh.send .sendClosed
+      let send' := setOnce s.sh.send .sendClosed
       -- terminateIfBothClosed
-      if sh.recv.isSome then some (s.upd t { sh with send := send' } (.tSet .termBothClosed c))
-      else some (s.upd t { sh with send := send' } (afterTerm c))
+      if s.sh.recv.isSome then some (s.upd t { s.sh with send := send' } (.tSet .termBothClosed c))
+      else some (s.upd t { s.sh with send := send' } (afterTerm c))
     | .handle k ctl _ d =>
       if k = kindInvoke then some (s.setPc t (.tSet .invokeOnExisting c))
-      else if k = kindError then some (s.upd t { sh with send := setOnce sh.send .eof } (.tSet (.remote d) c))
+      else if k = kindError then some (s.upd t { s.sh with send := setOnce s.sh.send .eof } (.tSet (.remote d) c))
       else if k = kindCancel then
-        some (s.upd t { sh with cancel := setOnce sh.cancel .canceled, send := setOnce sh.send .eof } (.tSet .canceled c))
-      else if k = kindClose ∨ k = kindCloseSend then some (s.upd t { sh with recv := setOnce sh.recv .eof } (.hPClose c))
+        some (s.upd t { s.sh with cancel := setOnce s.sh.cancel .canceled, send := setOnce s.sh.send .eof } (.tSet .canceled c))
+      else if k = kindClose ∨ k = kindCloseSend then some (s.upd t { s.sh with recv := setOnce s.sh.recv .eof } (.hPClose c))
       else if ctl then some (s.setPc t (.hRet .nil))
       else some (s.setPc t (.tSet (.unknownKind k) c))
     | _ => none
   | .hPClose c =>
-    if sh.pheld then none else
-    let sh1 := if sh.perr.isNone then { sh with pdata := [], pset := false, perr := some .eof } else sh
+    if s.sh.pheld then none else
+    let sh1 := pbufClose s.sh .eof
     match c with
     | .handle k _ _ _ =>
       if k = kindClose then some (s.upd t sh1 (.tSet .remoteClosed c))
@@ -320,99 +330,101 @@ def step (s : St) (t : Tid) : Option St :=
       else some (s.upd t sh1 (afterTerm c))
     | _ => none
   | .tSet e c =>
-    some (s.upd t { sh with send := setOnce sh.send e, recv := setOnce sh.recv e, term := setOnce sh.term e } (.tClose e c))
+    some (s.upd t { s.sh with send := setOnce s.sh.send e, recv := setOnce s.sh.recv e, term := setOnce s.sh.term e } (.tClose e c))
   | .tClose e c =>
-    if sh.pheld then none else
-    let sh1 := if sh.perr.isNone then { sh with pdata := [], pset := false, perr := some e } else sh
-    some (s.upd t sh1 (.cf1 (.term c)))
+    if s.sh.pheld then none else some (s.upd t (pbufClose s.sh e) (.cf1 (.term c)))
   | .unlockMu c =>
     -- s.mu.Unlock(); then sendPacketLocked: newFrameLocked (mid++) under the write lock
-    let mid' := sh.mid + 1
-    some (s.upd t { sh with mu := none, mid := mid' }
-      (.frame { frames := [packetOf o mid' c], checks := false, flush := .unchecked, recvAfter := none }))
+    let mid' := s.sh.mid + 1
+    some (s.upd t { s.sh with mu := none, mid := mid' }
+      (.frame { frames := [packetOf s.opts mid' c], checks := false, flush := .unchecked, recvAfter := none }))
   -- write section
   | .frame sec =>
     match sec.frames with
     | [] => some (s.setPc t (.flush sec))
     | fr :: rest =>
-      if sec.checks && sh.send.isSome then some (s.setPc t (.ret sec (.err (sh.send.getD .eof))))
-      else if sec.checks && sh.term.isSome then some (s.setPc t (.ret sec (.err (sh.term.getD .eof))))
+      if sec.checks && s.sh.send.isSome then some (s.setPc t (.ret sec (.err (s.sh.send.getD .eof))))
+      else if sec.checks && s.sh.term.isSome then some (s.setPc t (.ret sec (.err (s.sh.term.getD .eof))))
       else
-        let wbuf' := sh.wbuf ++ [fr]
+        let wbuf' := s.sh.wbuf ++ [fr]
         let sec' := { sec with frames := rest }
-        if bufBytes wbuf' ≥ o.wsize then
-          some (s.upd t { sh with wbuf := [], wFlag := true, inflight := some (t, wbuf') } (.writing sec' false))
+        if bufBytes wbuf' ≥ s.opts.wsize then
+          some (s.upd t { s.sh with wbuf := [], wFlag := true, inflight := some (t, wbuf') } (.writing sec' false))
         else
-          some (s.upd t { sh with wbuf := wbuf', wFlag := true } (if rest.isEmpty then .flush sec' else .frame sec'))
+          some (s.upd t { s.sh with wbuf := wbuf', wFlag := true } (if rest.isEmpty then .flush sec' else .frame sec'))
   | .writing _ _ => none                                          -- parked in the transport (Env.release)
   | .flush sec =>
     match sec.flush with
     | .none => some (s.setPc t (.ret sec .nil))
     | .checked =>
-      if !sh.wFlag then some (s.setPc t (.ret sec .nil))           -- wr.Empty()
-      else if sh.cancel.isSome then some (s.setPc t (.ret sec (.err (sh.cancel.getD .eof))))
-      else if sh.send.isSome then some (s.setPc t (.ret sec (.err (sh.send.getD .eof))))
-      else if sh.term.isSome then some (s.setPc t (.ret sec (.err (sh.term.getD .eof))))
-      else if sh.wbuf.isEmpty then some (s.setPc t (.ret sec (cancelWrap sh .nil)))
-      else some (s.upd t { sh with wbuf := [], inflight := some (t, sh.wbuf) } (.writing sec true))
+      if !s.sh.wFlag then some (s.setPc t (.ret sec .nil))           -- wr.Empty()
+      else if s.sh.cancel.isSome then some (s.setPc t (.ret sec (.err (s.sh.cancel.getD .eof))))
+      else if s.sh.send.isSome then some (s.setPc t (.ret sec (.err (s.sh.send.getD .eof))))
+      else if s.sh.term.isSome then some (s.setPc t (.ret sec (.err (s.sh.term.getD .eof))))
+      else if s.sh.wbuf.isEmpty then some (s.setPc t (.ret sec (cancelWrap s.sh .nil)))
+      else some (s.upd t { s.sh with wbuf := [], inflight := some (t, s.sh.wbuf) } (.writing sec true))
     | .unchecked =>
-      if sh.wbuf.isEmpty then some (s.setPc t (.ret sec (cancelWrap sh .nil)))
-      else some (s.upd t { sh with wbuf := [], inflight := some (t, sh.wbuf) } (.writing sec true))
-  | .ret sec r => some (s.upd t { sh with wHeld := false } (.unlockW sec r))     -- deferred Unlock: held := 0 …
+      if s.sh.wbuf.isEmpty then some (s.setPc t (.ret sec (cancelWrap s.sh .nil)))
+      else some (s.upd t { s.sh with wbuf := [], inflight := some (t, s.sh.wbuf) } (.writing sec true))
+  | .ret sec r => some (s.upd t { s.sh with wHeld := false } (.unlockW sec r))     -- deferred Unlock: held := 0 …
   | .unlockW sec r =>                                                            -- … Mutex.Unlock
-    some (s.upd t { sh with w := none }
+    some (s.upd t { s.sh with w := none }
       (match sec.recvAfter with
        | none => .cf1 (.ret r)
        | some park => .cf1 (if r = .nil then .recv park else .ret r)))
   -- checkFinished
-  | .cf1 k => if sh.term.isSome then some (s.setPc t (.cf2 k)) else some (s.setPc t (.cfEnd k))
-  | .cf2 k => if !sh.wHeld then some (s.setPc t (.cf3 k)) else some (s.setPc t (.cfEnd k))
+  | .cf1 k => if s.sh.term.isSome then some (s.setPc t (.cf2 k)) else some (s.setPc t (.cfEnd k))
+  | .cf2 k => if !s.sh.wHeld then some (s.setPc t (.cf3 k)) else some (s.setPc t (.cfEnd k))
   | .cf3 k =>
-    if !sh.rHeld then
+    if !s.sh.rHeld then
       -- fin.Set(nil): first wins; the winner sets the context signal and sends the fin token
-      let sh' := if sh.fin then sh else { sh with fin := true, ctxDone := true, finTokens := sh.finTokens + 1 }
-      some (s.upd t sh' (.cfEnd k))
+      some (s.upd t { s.sh with fin := true, ctxDone := true,
+                                finTokens := if s.sh.fin then s.sh.finTokens else s.sh.finTokens + 1 } (.cfEnd k))
     else some (s.setPc t (.cfEnd k))
   | .cfEnd k =>
     -- a RawFlush that ran inside flush.Do has returned: the once is complete
-    let sh' := if sh.once = some (some t) then { sh with once := some none } else sh
+    let sh' := { s.sh with once := if s.sh.once = some (some t) then some none else s.sh.once }
     match k with
     | .ret r => some (s.upd t sh' (.done r))
     | .recv park =>
       some (s.upd t sh'
-        (if o.manualFlush && sh.wFlag then .lockW (.msgRecv park) (flushSec (some park)) else .lockR park))
+        (if s.opts.manualFlush && s.sh.wFlag then .lockW (.msgRecv park) (flushSec (some park)) else .lockR park))
     | .term c => some (s.setPc t (afterTerm c))
   -- receive
-  | .lockR park => if sh.r.isSome then none else some (s.upd t { sh with r := some t } (.heldR park))
-  | .heldR park => some (s.upd t { sh with rHeld := true } (.get park))
+  | .lockR park => if s.sh.r.isSome then none else some (s.upd t { s.sh with r := some t } (.heldR park))
+  | .heldR park => some (s.upd t { s.sh with rHeld := true } (.get park))
   | .get park =>
-    if !sh.pset && sh.perr.isNone then none                       -- cond wait
-    else match sh.perr with
+    if !s.sh.pset && s.sh.perr.isNone then none                       -- cond wait
+    else match s.sh.perr with
       | some e => some (s.setPc t (.relR (.err e)))
-      | none => some (s.upd t { sh with pheld := true } (.unmarshal sh.pdata park))
+      | none => some (s.upd t { s.sh with pheld := true } (.unmarshal s.sh.pdata park))
   | .unmarshal d park =>
     if park.park then none
     else some (s.setPc t (.pdone (if park.fail then .err .unmarshal else .data d)))
-  | .pdone r => some (s.upd t { sh with pdata := [], pset := false, pheld := false } (.relR r))
-  | .relR r => some (s.upd t { sh with rHeld := false } (.unlockR r))
-  | .unlockR r => some (s.upd t { sh with r := none } (.cf1 (.ret r)))
+  | .pdone r => some (s.upd t { s.sh with pdata := [], pset := false, pheld := false } (.relR r))
+  | .relR r => some (s.upd t { s.sh with rHeld := false } (.unlockR r))
+  | .unlockR r => some (s.upd t { s.sh with r := none } (.cf1 (.ret r)))
   -- HandlePacket
   | .hTerm c =>
-    if sh.term.isSome then some (s.setPc t (.done .nil))
+    if s.sh.term.isSome then some (s.setPc t (.done .nil))
     else match c with
       | .handle k _ _ d => if k = kindMessage then some (s.setPc t (.put1 d)) else some (s.setPc t (.lockMu c))
       | _ => none
   | .put1 d =>
-    if sh.pset && sh.perr.isNone then none                        -- cond wait: slot occupied
-    else if sh.perr.isSome then some (s.setPc t (.done .nil))
-    else some (s.upd t { sh with pdata := d, pset := true, pheld := false } .put2)
-  | .put2 => if sh.pset || sh.pheld then none else some (s.setPc t (.done .nil))
-  | .hRet r => some (s.upd t { sh with mu := none } (.done r))
+    if s.sh.pset && s.sh.perr.isNone then none                        -- cond wait: slot occupied
+    else if s.sh.perr.isSome then some (s.setPc t (.done .nil))
+    else some (s.upd t { s.sh with pdata := d, pset := true, pheld := false } .put2)
+  | .put2 => if s.sh.pset || s.sh.pheld then none else some (s.setPc t (.done .nil))
+  | .hRet r => some (s.upd t { s.sh with mu := none } (.done r))
+
+/-- One atomic step of thread `t`; `none` when the thread is blocked or finished. -/
+def step (s : St) (t : Tid) : Option St := stepPC s t (s.pc t)
 
 /-- environment events -/
 inductive Env where
   | release (err : Option Nat)     -- the parked transport write completes (none: all bytes written)
   | unmarshalDone (t : Tid)        -- the parked Unmarshal of thread `t` returns
+  | marshalDone (t : Tid)          -- the parked Marshal of thread `t` returns
 deriving Repr, DecidableEq
 
 def envStep (s : St) (e : Env) : Option St :=
@@ -432,6 +444,10 @@ def envStep (s : St) (e : Env) : Option St :=
           | some _ => some (s.upd t sh1 (.ret sec (cancelWrap sh1 r)))
           | none => some (s.upd t sh1 (if sec.frames.isEmpty then .flush sec else .frame sec))
       | _ => none
+  | .marshalDone t =>
+    match s.pc t with
+    | .marshal (.msgSend d true) sec => some (s.setPc t (.marshal (.msgSend d false) sec))
+    | _ => none
   | .unmarshalDone t =>
     match s.pc t with
     | .unmarshal d m => if m.park then some (s.setPc t (.pdone (if m.fail then .err .unmarshal else .data d))) else none
